@@ -69,7 +69,9 @@ def report(pid, verdicts, payload_of, known_key_of, tag):
 # C18  filesystem artifact store
 # ======================================================================================================
 
-NODE_IDS = ['a', 'a.b', 'a.b.c', 'ab', 'a*', 'a?', '[a]', 'a.pickle', 'a.json', 'b', 'step_1', 'step_10', 'x.y', 'x']
+NODE_IDS = ['a', 'a.b', 'a.b.c', 'ab', 'a*', 'a?', '[a]', 'a.pickle', 'a.json', 'b', 'step_1', 'step_10', 'x.y', 'x',
+            # ids with path separators: a name like 'features/v2', and one that points into another pipeline's directory
+            'a/b', '../p1/a', '../p2/a', 'a%2Fb']
 
 AS_MC_CFG = '''SPECIFICATION Spec
 CONSTANTS
@@ -98,7 +100,7 @@ def c18_values():
     vals = {}
     ser = []
     for i in range(6):
-        vals['j%d' % i] = {'tok': i, 'list': [i, str(i)], 'nested': {'k': None}}     # survives JSON and pickle
+        vals['j%d' % i] = {'tok': i, 'list': [i, str(i)], 'nested': {'k': None}, 'ratio': i / 10}     # survives JSON and pickle
         ser += [['j%d' % i, 'pickle'], ['j%d' % i, 'json']]
     for i in range(3):
         vals['p%d' % i] = ('tuple', i, frozenset([i]))                                  # pickle only
@@ -315,7 +317,8 @@ def builder_decl_sets(tier, seed):
             pick = set(rnd.sample(cand, min(len(cand), 2)))
             rec_nodes = {prm.get('dest') for n in p['nodes'] for prm in n['params'] if prm['kind'] == 'rec'} | \
                         {prm.get('start') for n in p['nodes'] for prm in n['params'] if prm['kind'] == 'rec'}
-            pick -= rec_nodes
+            if rnd.random() < 0.5:
+                pick -= rec_nodes
             if pick:
                 d4 = decls.from_program(p, generic=pick)
                 d4['name'] += '~generic'
@@ -377,7 +380,7 @@ def builder_decl_sets(tier, seed):
     ]
     for p in extra:
         out.append(decls.from_program(p))
-        d5 = decls.from_program(p, generic={n['id'] for n in p['nodes'] if n['params'] and n['id'] not in ('S', 'D1', 'D2')})
+        d5 = decls.from_program(p, generic={n['id'] for n in p['nodes'] if n['params']})
         d5['name'] += '~generic'
         out.append(d5)
     return out
@@ -477,10 +480,16 @@ def viewer_case(d, tmp, repeat=1):
     impl = GraphConfigImpl(dag)
     out = []
     for k in range(repeat):
-        with warnings.catch_warnings():
-            warnings.simplefilter('ignore')       # 'Node ... without node type.' for nodes that implement NodeBase directly
-            cfg = impl.generate(name='verif', verbose_name='Verif', node_colors={'processor': '#ffffff'})
-        dct = cfg.as_dict()
+        try:
+            with warnings.catch_warnings():
+                warnings.simplefilter('ignore')       # 'Node ... without node type.' for nodes that implement NodeBase directly
+                cfg = impl.generate(name='verif', verbose_name='Verif', node_colors={'processor': '#ffffff'})
+            dct = cfg.as_dict()
+        except Exception as ex:  # noqa: BLE001
+            # the pipeline builds, the description cannot be generated: a verdict, not a failure of the machinery
+            out.append({'id': '%s|gen%d' % (d['name'], k), 'd': decls.to_tla(d), 'nodes': [], 'edges': [], 'types': ['-'],
+                        'json_ok': True, 'pure': True, 'crash': type(ex).__name__})
+            continue
         try:
             json.loads(json.dumps(dct))
             json_ok = True
@@ -518,7 +527,8 @@ def viewer_case(d, tmp, repeat=1):
         edges = [['%s->%s' % (nid(e['source']), nid(e['target'])) if e['id'] == '%s->%s' % (e['source'], e['target']) else str(e['id']),
                   nid(e['source']), nid(e['target'])] for e in dct['edges']]
         out.append({'id': '%s|gen%d' % (d['name'], k), 'd': decls.to_tla(d), 'nodes': nodes, 'edges': edges,
-                    'types': sorted(str(x) for x in dct['node_types']) or ['-'], 'json_ok': json_ok, 'pure': before == after})
+                    'types': sorted(str(x) for x in dct['node_types']) or ['-'], 'json_ok': json_ok, 'pure': before == after,
+                    'crash': '-'})
     return out
 
 
